@@ -401,7 +401,16 @@ def _configs():
         for m_none in (True, False):
             yield fam, m_none, None, ""
     for fam in _families():
-        yield fam, True, {"self.pre_eig": True}, "pre_eig"
+        if _has_pre_eig(fam[2]):
+            yield fam, True, {"self.pre_eig": True}, "pre_eig"
+
+
+_PRE_EIG = {}
+
+
+def _has_pre_eig(solver):
+    """the solver can be built with the `pre_eig` option (its constructor has that parameter): the regime exists for it"""
+    return _PRE_EIG.get(solver, True)
 
 
 def _force_of(ctx, run, node=None):
@@ -589,7 +598,16 @@ def _eq(a, b):
 
 
 # ------------------------------------------------------------------------------------------------ R1
+def _read_pre_eig(ctx):
+    for solver in ("SolveUnc", "FreqDirect"):
+        rel = O.UNC if solver == "SolveUnc" else O.FD
+        init = ctx.src.mod(rel).funcs.get(f"{solver}.__init__")
+        _PRE_EIG[solver] = init is None or init.args.kwarg is not None or any(
+            a.arg == "pre_eig" for a in init.args.posonlyargs + init.args.args + init.args.kwonlyargs)
+
+
 def r1_dynamic_stiffness(ctx):
+    _read_pre_eig(ctx)
     b, k, m = F.sym("self.b"), F.sym("self.k"), F.sym("self.m")
     for fam, m_none, extra, tag in _configs():
         if True:
@@ -819,6 +837,7 @@ def _freq_mask(ctx, run, M, node, which):
 
 
 def r2_derivative_relations(ctx):
+    _read_pre_eig(ctx)
     for fam, m_none, extra, tag in _configs():
         if True:
             run = _run(ctx, fam[0], m_none, extra, tag)
@@ -1955,6 +1974,7 @@ def r10_static_and_rigid_limits(ctx):
     inverse, an LU factorisation); what that state holds is read from the method that assigns it, so the obligation is on the product
     state x use: whatever is stored on the rf rows of d, multiplied by k_rf, is F - and likewise for the rigid-body acceleration and m."""
     krf, mm = F.sym("self.krf"), F.sym("self.m")
+    _read_pre_eig(ctx)
     for fam, m_none, extra, tag in _configs():
         if True:
             run = _run(ctx, fam[0], m_none, extra, tag)
@@ -1994,15 +2014,15 @@ def r10_static_and_rigid_limits(ctx):
 
 RULES = [
     ("C02-R6", r6_paired_advanced_indices, 2),
-    ("C02-R1", r1_dynamic_stiffness, 20),
-    ("C02-R2", r2_derivative_relations, 80),
+    ("C02-R1", r1_dynamic_stiffness, 26),
+    ("C02-R2", r2_derivative_relations, 110),
     ("C02-R3", r3_option_gating, 60),
     ("C02-R4", r4_partition_typing, 100),
     ("C02-R5", r5_solvepsd, 8),
     ("C02-R7", r7_every_force_counts, 2),
     ("C02-R8", r8_structure_assumption, 2),
     ("C02-R9", r9_conjugate_set_guards, 6),
-    ("C02-R10", r10_static_and_rigid_limits, 14),
+    ("C02-R10", r10_static_and_rigid_limits, 20),
 ]
 LEVEL = "other"
 EXPLANATION = ("Static: the public frequency-domain entry points are evaluated on symbols once per configuration (helpers followed, tests decided by value); "
